@@ -3,6 +3,7 @@
 -/
 import KamalProxy.Properties.C16
 import KamalProxy.Std.Html
+import KamalProxy.Proofs.PauseSticky
 namespace KamalProxy.C08
 open KamalProxy C16
 
@@ -181,6 +182,44 @@ theorem C08_redeploy_keeps_state (c : Core) (name : Bytes) (ts : List Bytes) (op
       simpa using this
 
 /-! ### the message is inserted as HTML-escaped text -/
+
+/-! ### "until resumed": the stopped state over whole command histories (no bound) -/
+
+/-- One command: the pause-controller state of an installed service `n` (running / paused / stopped, the stop message,
+    the max pause) is left exactly as it was by every command other than `pause n`, `stop n`, `resume n`, `remove n`
+    and a restart — in particular by a redeploy or rollout deploy of `n`, by `rollout set`/`rollout stop`, and by any
+    command on another service, whether it succeeds or fails. (Restart: `C11_reachable_roundtrip`.) -/
+theorem C08_state_survives_command (c : Core) (cmd : Cmd) (n : Bytes) (p : Pause)
+    (h : pauseOf c.svcs n = some p) (hc : touchesPause n cmd = false) :
+    pauseOf (stepCore c cmd).1.svcs n = some p := pause_survives c cmd n p h hc
+
+/-- Whole histories: a service stopped with message `msg` is still stopped with that message after ANY sequence of
+    such commands; together with `C08_stopped_503` every request routed to it in between gets the 503 with `msg`. -/
+theorem C08_stopped_until_resumed (cmds : List Cmd) (c : Core) (n : Bytes) (p : Pause)
+    (h : pauseOf c.svcs n = some p) (hc : ∀ cmd ∈ cmds, touchesPause n cmd = false) :
+    pauseOf (cmds.foldl (fun c cmd => (stepCore c cmd).1) c).svcs n = some p := by
+  induction cmds generalizing c with
+  | nil => exact h
+  | cons cmd rest ih =>
+    simp only [List.foldl_cons]
+    exact ih _ (pause_survives c cmd n p h (hc cmd (List.mem_cons_self ..)))
+      (fun x hx => hc x (List.mem_cons_of_mem _ hx))
+
+def oA : SvcOptions := ⟨[asciiB "a.com"], [], false, [], [], true, [], [], [], true⟩
+def oB : SvcOptions := ⟨[asciiB "b.com"], [], false, [], [], true, [], [], [], true⟩
+def tA : TargetOptions := ⟨[], 1, 1, 1, false, false, 0, 0, 0, [], [], false⟩
+def histStop : List Cmd := [.deploy (asciiB "s4") [asciiB "s4-t1-a:80"] oA tA ⟨true, true, true⟩,
+  .stop (asciiB "s4") (asciiB "back at 9")]
+def histAfter : List Cmd := [.deploy (asciiB "s4") [asciiB "s4-t3-a:80"] oA tA ⟨true, true, true⟩,
+  .rolloutDeploy (asciiB "s4") [asciiB "s4-r4-a:80"] ⟨true, true, true⟩, .rolloutSet (asciiB "s4") 30 [],
+  .deploy (asciiB "other") [asciiB "ot-t1-a:80"] oB tA ⟨true, true, true⟩, .stop (asciiB "other") [],
+  .remove (asciiB "other"), .rolloutStop (asciiB "s4")]
+-- non-vacuity: a reachable stopped service and a seven-command history that meets the hypotheses
+example : (pauseOf (runCore histStop).svcs (asciiB "s4")).map (fun p => (p.st, p.msg)) = some (.stopped, asciiB "back at 9") ∧
+    (∀ cmd ∈ histAfter, touchesPause (asciiB "s4") cmd = false) ∧
+    (pauseOf (histAfter.foldl (fun c cmd => (stepCore c cmd).1) (runCore histStop)).svcs (asciiB "s4")).map
+      (fun p => (p.st, p.msg)) = some (.stopped, asciiB "back at 9") := by
+  refine ⟨by decide +kernel, by decide +kernel, by decide +kernel⟩
 
 theorem escapeByte_safe_fin : ∀ i : Fin 256, ∀ x ∈ escapeByte (UInt8.ofNat i.val),
     x ≠ 60 ∧ x ≠ 62 ∧ x ≠ 34 ∧ x ≠ 39 := by decide +kernel
